@@ -393,6 +393,44 @@ GOOD = {"bad-direction": "LowToHigh", "bad-direction-binary": "HighToLow", "dup-
 BAD = {"bad-direction": "Sideways", "bad-direction-binary": "up", "dup-raw": "[1, 1]", "bad-truest": "Middle", "k-too-big": "3"}
 
 
+def run_thresholds(ctx, case):
+    """The same run-time error reached in two ways - thresholds written out and equal, thresholds left out on a field with a
+    single distinct value - names a line of its own command both times (or neither time)."""
+    from mpilot.program import Program
+    rng = random.Random(case["rseed"])
+    d = ctx.scratch()
+    with open(os.path.join(d, "in.csv"), "w") as f:
+        f.write("X0,K0\n1,4\n2,4\n3,4\n5,4\n")
+    head = ['A = EEMSRead(InFileName = "in.csv", InFieldName = "X0")', 'K = EEMSRead(InFileName = "in.csv", InFieldName = "K0")'] + [""] * rng.randint(0, 3)
+    cmdname = rng.choice(["CvtToFuzzy", "CvtToFuzzy", "CVTTOFUZZY"])
+    res = (lambda body: "X = %s(\n%s\n)" % (cmdname, body)) if cmdname != "CVTTOFUZZY" else (lambda body: "CVTTOFUZZY(\n%s,\n    NewFieldName = X\n)" % body)
+    variants = {"written-out": res("    InFieldName = A,\n    TrueThreshold = 3,\n\n    FalseThreshold = 3"), "left-out": res("    InFieldName = K" + rng.choice(["", ",\n    Direction = LowToHigh"]))}
+    got = {}
+    for tag, block in variants.items():
+        text = "\n".join(head + [block, "", "Y = Copy(InFieldName = A)"])
+        err = None
+        try:
+            Program.from_source(text, working_dir=d).run()
+        except Exception as e:
+            err = e
+        if type(err).__name__ != "InvalidThresholds":
+            ctx.dontcare("equal thresholds (%s) gave %s" % (tag, type(err).__name__))
+            return
+        lines = text.split("\n")
+        start = [k + 1 for k, ln in enumerate(lines) if ln.startswith("X = ") or ln.startswith("CVTTOFUZZY(")][0]
+        end = start + block.count("\n")
+        got[tag] = (getattr(err, "lineno", None), start, end, text)
+    ctx.count("runtime_fault_linenos_checked", 2)
+    ctx.feature(("thresholds", cmdname, len(head)))
+    for tag, (ln, start, end, text) in got.items():
+        if ln is not None and not (start <= ln <= end):
+            ctx.fail("runtime-fault:equal-thresholds:line-of-another-command", {"way": tag, "got": ln, "own_command_lines": [start, end], "text": text})
+            return
+    if (got["written-out"][0] is None) != (got["left-out"][0] is None):
+        tag = "left-out" if got["left-out"][0] is None else "written-out"
+        ctx.fail("runtime-fault:equal-thresholds:no-line-when-the-thresholds-are-%s" % tag, {"written_out": got["written-out"][0], "left_out": got["left-out"][0], "text": got[tag][3]})
+
+
 def run_runtime(ctx, case):
     """Several commands of one class give the same argument on different lines; one of them fails while executing with an
     error that carries a line: it must be the line of *its own* command or argument."""
@@ -741,6 +779,8 @@ def run_case(ctx, case):
     if case["kind"] == "tree":
         return run_tree(ctx, case)
     if case["kind"] == "runtime":
+        if case["rseed"] % 6 == 0:
+            run_thresholds(ctx, case)
         return run_runtime(ctx, case)
     if case["kind"] == "dupline":
         return run_dupline(ctx, case)
